@@ -512,9 +512,32 @@ def q_line(dist, seed, n, k, ps):
     return "q %s %d %d %d %s" % (dist, seed, n, k, fmt_params(dist, ps))
 
 
+NPARAMS = {"normal": 2, "gamma": 2, "beta": 2, "chi2": 1, "t": 1, "poisson": 1, "binomial": 2, "exp": 1, "gumbel": 2,
+           "pareto": 2, "uniform": 2, "du": 2, "bern": 1}
+MODES = {"u": "update", "f": "setters", "r": "setters-reversed"}
+
+
+def h_line(mode, dist, seed, n, init, ps):
+    return "h %s %s %d %d %s %s" % (mode, dist, seed, n, fmt_params(dist, init), fmt_params(dist, ps))
+
+
+def hq_line(mode, dist, seed, n, k, init, ps):
+    return "hq %s %s %d %d %d %s %s" % (mode, dist, seed, n, k, fmt_params(dist, init), fmt_params(dist, ps))
+
+
 def parse_line(line):
     t = line.split()
     op = t[0]
+    if op in ("h", "hq"):
+        # object history: constructed with `init`, brought to `ps` by update / setters; judged like a fresh object
+        mode, dist = t[1], t[2]
+        k = NPARAMS[dist]
+        rest = t[5:] if op == "h" else t[6:]
+        o = {"op": "s" if op == "h" else "q", "dist": dist, "seed": int(t[3]), "n": int(t[4]), "hist": mode,
+             "init": parse_params(dist, rest[:k]), "ps": parse_params(dist, rest[k:])}
+        if op == "hq":
+            o["k"] = int(t[5])
+        return o
     if op == "s":
         return {"op": op, "dist": t[1], "seed": int(t[2]), "n": int(t[3]), "ps": parse_params(t[1], t[4:])}
     if op == "m":
@@ -537,7 +560,15 @@ def parse_line(line):
 
 
 def model_line(line):
-    return None if line.startswith("q") else line
+    """`q`, `qmvn`, `hq` are implementation-only.  An `h` line (object reached through update / setters) is, for the
+    model, the fresh object with the target parameters: a distribution is a pure function of its current parameters
+    (the C18 theorem), so a stale cached sub-sampler in the Rust code is a correspondence difference."""
+    if line.startswith("q") or line.startswith("hq"):
+        return None
+    if line.startswith("h "):
+        o = parse_line(line)
+        return s_line(o["dist"], o["seed"], o["n"], o["ps"])
+    return line
 
 
 def cases(rng, tier):
@@ -586,6 +617,31 @@ def cases(rng, tier):
     for p in [0.5, 0.0, 1.0, U(0.001, 0.999), 1e-9]:
         cs.append(("bern", [p]))
     return cs
+
+
+def histories(rng, tier):
+    """-> list of (dist, init params, target params): both valid, different, crossing the algorithm regimes; for the
+    two-bound laws the initial interval contains the target one so that every setter order passes the bound checks"""
+    U, LU = rng.uniform, rng.loguniform
+    a = U(-500, 500)
+    w = LU(1e-2, 400)
+    b = rng.randint(-900, 800)
+    hs = [
+        ("normal", [0.0, 1.0], [U(-50, 50), LU(1e-2, 1e2)]),
+        ("gamma", [0.5, 2.0], [LU(1.0, 20.0), LU(0.1, 10.0)]), ("gamma", [5.0, 1.0], [LU(0.05, 0.9), LU(0.1, 10.0)]),
+        ("beta", [2.0, 2.0], [2.0, 5.0]), ("beta", [6.0, 1.0], [LU(0.1, 0.9), LU(1.0, 10.0)]), ("beta", [1.0, 1.0], [4.0, 3.0]),
+        ("chi2", [1], [rng.randint(2, 40)]), ("chi2", [10], [1]),
+        ("t", [1.0], [LU(2.0, 30.0)]), ("t", [30.0], [LU(0.2, 1.9)]),
+        ("poisson", [1.0], [U(10, 400)]), ("poisson", [200.0], [U(0.1, 9.9)]),
+        ("binomial", [10, 0.3], [rng.randint(200, 5000), U(0.55, 0.95)]), ("binomial", [1000, 0.5], [rng.randint(1, 60), U(0.01, 0.45)]),
+        ("exp", [1.0], [LU(1e-3, 1e3)]),
+        ("gumbel", [0.0, 1.0], [U(-10, 10), LU(1e-2, 1e2)]),
+        ("pareto", [1.0, 1.0], [LU(0.3, 30), LU(1e-2, 1e2)]),
+        ("uniform", [-1000.0, 1000.0], [a, a + w]), ("uniform", [-1000.0, 1000.0], [a, a]),
+        ("du", [-1000, 1000], [b, b + rng.randint(1, 100)]), ("du", [-1000, 1000], [b, b]),
+        ("bern", [0.5], [U(0.01, 0.99)]), ("bern", [0.0], [U(0.01, 0.99)]),
+    ]
+    return hs
 
 
 INVALID = [("normal", [0.0, -1.0]), ("gamma", [0.0, 1.0]), ("gamma", [1.0, -2.0]), ("beta", [-1.0, 1.0]), ("beta", [1.0, 0.0]),
@@ -666,6 +722,12 @@ def corpus():
         s_line("binomial", 7, 5, [2 ** 64 - 1, 1e-19]), s_line("binomial", 7, 50, [2 ** 64 - 1, 1e-18]),
         # F46 (fixed): 1 - p rounds to 1 for p < 2^-53, every draw was 0
         q_line("binomial", 7, 50000, KQ, [2 ** 64 - 1, 1e-19]), q_line("binomial", 7, 50000, KQ, [10 ** 17, 1e-17]),
+        # seeded change C03b: Beta::set_beta updated the cached gamma generator's rate instead of its shape; F32 (fixed):
+        # ChiSquared::set_dof kept the old gamma sampler.  Objects reached through setters / update must sample the target law
+        hq_line("f", "beta", 18, 50000, KQ, [2.0, 2.0], [2.0, 5.0]), hq_line("u", "beta", 18, 50000, KQ, [1.0, 1.0], [4.0, 3.0]),
+        hq_line("r", "beta", 18, 50000, KQ, [6.0, 1.0], [1.0, 2.0]), h_line("f", "beta", 18, 50, [2.0, 2.0], [2.0, 5.0]),
+        hq_line("f", "chi2", 18, 50000, KQ, [1], [7]), hq_line("u", "chi2", 18, 50000, KQ, [9], [2]),
+        h_line("u", "gamma", 18, 50, [0.5, 2.0], [3.0, 0.25]), h_line("r", "binomial", 18, 50, [10, 0.3], [2000, 0.9]),
         # open finding du:panic:range>=2^63 (dependency alea: hi + 1 - lo overflows i64)
         s_line("du", 7, 5, [0, I64MAX]), s_line("du", 7, 5, [-2 ** 62, 2 ** 62]),
     ]
@@ -695,6 +757,19 @@ def gen(rng, tier):
         for _ in range(qseeds):
             lines.append(q_line(dist, rng.u64(), nq, KQ, ps))
             count("q:%s:%s" % (dist, rg))
+    # objects reached through update / setters (judged exactly like the fresh object with the target parameters)
+    hs = histories(rng.fork("hist"), tier)
+    if tier != "quick":
+        hs += histories(rng.fork("hist2"), tier)
+    for j, (dist, init, ps) in enumerate(hs):
+        modes = ["u", "f", "r"] if NPARAMS[dist] == 2 else ["u", "f"]
+        for mode in modes:
+            lines.append(h_line(mode, dist, rng.u64(), 2000, init, ps))
+            count("h:%s:%s" % (dist, MODES[mode]))
+        # DKW after the history: every mode in thorough, one rotating mode per pair in quick
+        for mode in (modes if tier != "quick" else [modes[j % len(modes)]]):
+            lines.append(hq_line(mode, dist, rng.u64(), nq if tier == "quick" else nq // 4, KQ, init, ps))
+            count("hq:%s:%s" % (dist, MODES[mode]))
     for dist, ps in INVALID:
         lines.append(s_line(dist, rng.u64(), 3, ps))
         count("invalid-params")
@@ -722,8 +797,8 @@ def nontrivial(line, reply):
     if t[0] in ("mvn", "qmvn"):
         return " ".join(t[:1] + t[2:24])
     o = parse_line(line)
-    return "%s %s %s %s" % (o["op"], o["dist"], regime(o["dist"], o["ps"]) if valid(o["dist"], o["ps"]) else "invalid",
-                            fmt_params(o["dist"], o["ps"]))
+    return "%s%s %s %s %s" % (o["op"], ":" + o["hist"] if "hist" in o else "", o["dist"],
+                              regime(o["dist"], o["ps"]) if valid(o["dist"], o["ps"]) else "invalid", fmt_params(o["dist"], o["ps"]))
 
 
 # ----------------------------------------------------------------------------------------------- oracle
@@ -761,11 +836,17 @@ def oracle(lines, impl):
                 fails.append(Failure(i, "%s:ctor" % dist, "invalid parameters %r accepted (%s)" % (ps, st)))
             continue
         rg = regime(dist, ps)
+        if "hist" in o:
+            # same criterion as for a fresh object; the key and the message name how the object was reached
+            rg += ":after-" + MODES[o["hist"]]
+            dist_shown = "%s%r.%s -> %s" % (dist, o["init"], MODES[o["hist"]], dist)
+        else:
+            dist_shown = dist
         if st == "diverged":
-            fails.append(Failure(i, "%s:termination:%s" % (dist, rg), "sampling %s%r did not return within the wall-clock cap" % (dist, ps)))
+            fails.append(Failure(i, "%s:termination:%s" % (dist, rg), "sampling %s%r did not return within the wall-clock cap" % (dist_shown, ps)))
             continue
         if st != "ok":
-            fails.append(Failure(i, "%s:panic:%s" % (dist, rg), "sampling %s%r with valid parameters: %s" % (dist, ps, rep[:80])))
+            fails.append(Failure(i, "%s:panic:%s" % (dist, rg), "sampling %s%r with valid parameters: %s" % (dist_shown, ps, rep[:80])))
             continue
         if op == "s":
             xs = [h2f(x) for x in toks[:-1]]
@@ -774,10 +855,10 @@ def oracle(lines, impl):
                 continue
             msg = check_support(dist, ps, xs)
             if msg:
-                fails.append(Failure(i, "%s:support:%s" % (dist, rg), "%s%r seed %d: %s" % (dist, ps, o["seed"], msg)))
+                fails.append(Failure(i, "%s:support:%s" % (dist, rg), "%s%r seed %d: %s" % (dist_shown, ps, o["seed"], msg)))
             pm = point_mass(dist, ps)
             if pm is not None and any(x != pm for x in xs):
-                fails.append(Failure(i, "%s:dkw:%s" % (dist, rg), "%s%r is the point mass at %r but a draw differs" % (dist, ps, pm)))
+                fails.append(Failure(i, "%s:dkw:%s" % (dist, rg), "%s%r is the point mass at %r but a draw differs" % (dist_shown, ps, pm)))
         elif op == "m":
             r, c = o["r"], o["c"]
             if int(toks[0]) != r or int(toks[1]) != c or len(toks) != 3 + r * c:
@@ -786,7 +867,7 @@ def oracle(lines, impl):
                 continue
             msg = check_support(dist, ps, [h2f(x) for x in toks[2:-1]])
             if msg:
-                fails.append(Failure(i, "%s:support:%s" % (dist, rg), "%s%r seed %d: %s" % (dist, ps, o["seed"], msg)))
+                fails.append(Failure(i, "%s:support:%s" % (dist, rg), "%s%r seed %d: %s" % (dist_shown, ps, o["seed"], msg)))
         elif op == "q":
             n = o["n"]
             ln, nan, nonint = int(toks[0]), int(toks[1]), int(toks[2])
@@ -804,7 +885,7 @@ def oracle(lines, impl):
             elif integer and nonint:
                 bad = "%d of %d draws of a discrete law are not integers" % (nonint, n)
             if bad:
-                fails.append(Failure(i, "%s:support:%s" % (dist, rg), "%s%r seed %d: %s" % (dist, ps, o["seed"], bad)))
+                fails.append(Failure(i, "%s:support:%s" % (dist, rg), "%s%r seed %d: %s" % (dist_shown, ps, o["seed"], bad)))
                 continue
             if n == 0:
                 continue
@@ -817,7 +898,7 @@ def oracle(lines, impl):
             pm = point_mass(dist, ps)
             if pm is not None:
                 if not (kind == "h" and len(payload) == 1 and payload[0][0] == pm):
-                    fails.append(Failure(i, "%s:dkw:%s" % (dist, rg), "%s%r is the point mass at %r but the draws are not all equal to it" % (dist, ps, pm)))
+                    fails.append(Failure(i, "%s:dkw:%s" % (dist, rg), "%s%r is the point mass at %r but the draws are not all equal to it" % (dist_shown, ps, pm)))
                 continue
             L, where = dkw_lower_bound(dist, ps, n, kind, payload)
             eps = dkw_eps(n)
@@ -826,7 +907,7 @@ def oracle(lines, impl):
                     rg += ":interior"     # the open finding is about the mass at the end points only
                 fails.append(Failure(i, "%s:dkw:%s" % (dist, rg),
                                      "%s%r seed %d n %d: sup|F_n - F| >= %.6f at x = %r exceeds the DKW band %.6f (alpha = 1e-12)"
-                                     % (dist, ps, o["seed"], n, L, where, eps), "%.6f" % eps))
+                                     % (dist_shown, ps, o["seed"], n, L, where, eps), "%.6f" % eps))
     return fails
 
 
